@@ -2,6 +2,7 @@ package proxy
 
 import (
 	"context"
+	"fmt"
 	"io"
 
 	"go.temporal.io/server/api/adminservice/v1"
@@ -114,6 +115,7 @@ type rtTarget struct {
 	fromTgt   chan *adminservice.StreamWorkflowReplicationMessagesRequest
 	broken    chan struct{}
 	msgs      int
+	started   bool
 	// tracker model
 	ids       []int64 // proxy ids of accepted tasks in order
 	tasks     []*rtTask
@@ -176,6 +178,8 @@ type rtEnv struct {
 	byObj     map[*replicationv1.ReplicationTask]*rtTask
 	nextWF    int
 	logger    log.Logger
+	lateFrom  int  // targets with index >= lateFrom are connected by an explicit action
+	snapshotTasks bool
 }
 
 func rtNewEnv(nSrc, nTgt int) *rtEnv {
@@ -184,7 +188,7 @@ func rtNewEnv(nSrc, nTgt int) *rtEnv {
 	if impl, ok := sm.(*shardManagerImpl); ok {
 		impl.SetupCallbacks() // what Start() does before anything else
 	}
-	e := &rtEnv{sm: sm, nSrc: nSrc, nTgt: nTgt, byObj: map[*replicationv1.ReplicationTask]*rtTask{}, logger: log.NewNoopLogger()}
+	e := &rtEnv{sm: sm, nSrc: nSrc, nTgt: nTgt, lateFrom: nTgt, byObj: map[*replicationv1.ReplicationTask]*rtTask{}, logger: log.NewNoopLogger()}
 	return e
 }
 
@@ -231,13 +235,26 @@ func (e *rtEnv) startReceiver(s *rtSource) (*proxyStreamReceiver, channel.Shutdo
 	return rcv, shut
 }
 
+func (e *rtEnv) connectTarget(j int) {
+	t := e.targets[j]
+	t.started = true
+	e.senders[j], e.tgtShut[j] = e.startSender(t)
+}
+
+// emitWatermarkAgain: the source's periodic sync (same or higher watermark).
+func (e *rtEnv) emitWatermarkAgain(s *rtSource) {
+	e.emitBatch(s, 0)
+}
+
 func (e *rtEnv) startAll() {
 	for j := 0; j < e.nTgt; j++ {
 		t := e.newTarget(j, 0)
 		e.targets = append(e.targets, t)
-		snd, shut := e.startSender(t)
-		e.senders = append(e.senders, snd)
-		e.tgtShut = append(e.tgtShut, shut)
+		e.senders = append(e.senders, nil)
+		e.tgtShut = append(e.tgtShut, nil)
+		if j < e.lateFrom {
+			e.connectTarget(j)
+		}
 	}
 	for i := 0; i < e.nSrc; i++ {
 		s := e.newSource(i)
@@ -269,6 +286,9 @@ func (e *rtEnv) emitBatch(s *rtSource, n int) {
 			RawTaskInfo:  &persistencespb.ReplicationTaskInfo{NamespaceId: "ns", WorkflowId: wf, TaskId: id},
 		}
 		rec := &rtTask{orig: id, obj: obj, source: s.idx}
+		if e.snapshotTasks {
+			verifSnapshot(fmt.Sprintf("task-%d", len(e.tasks)), obj)
+		}
 		e.tasks = append(e.tasks, rec)
 		e.byObj[obj] = rec
 		tasks = append(tasks, obj)
